@@ -761,21 +761,18 @@ theorem le_layoutEnd (fs : List RawField) (rel : Nat) : rel ≤ layoutEnd fs rel
     omega
 
 theorem unpackFields_aligned (be : Bool) (fs : List RawField) (data : Bytes) (base rel : Nat)
-    (hal : ∀ f ∈ fs, f.size ∣ base) (hin : base + layoutEnd fs rel ≤ data.length) :
-    unpackFields be true fs data (base + rel) = .ok (readAt be fs data base rel) := by
+    (hin : base + layoutEnd fs rel ≤ data.length) :
+    unpackFields be true fs data base rel = .ok (readAt be fs data base rel) := by
   induction fs generalizing rel with
   | nil => simp [unpackFields, readAt]
   | cons f fs ih =>
-    have hf : f.size ∣ base := hal f (by simp)
     have hle := le_layoutEnd fs (alignUp rel f.size + f.nbytes)
     simp only [layoutEnd] at hin
     unfold unpackFields
     simp only [if_true]
-    rw [alignUp_add base rel f.size hf]
     rw [rdField_ok be f data _ (by omega)]
-    have e : base + alignUp rel f.size + f.nbytes = base + (alignUp rel f.size + f.nbytes) := by omega
-    simp only [e]
-    rw [ih _ (fun g hg => hal g (by simp [hg])) hin]
+    simp only []
+    rw [ih _ hin]
     simp [readAt]
 
 /-- packed walk (no alignment) -/
@@ -794,15 +791,17 @@ theorem le_packedEnd (fs : List RawField) (off : Nat) : off ≤ packedEnd fs off
 
 theorem unpackFields_packed (be : Bool) (fs : List RawField) (data : Bytes) (off : Nat)
     (hin : packedEnd fs off ≤ data.length) :
-    unpackFields be false fs data off = .ok (readAtPacked be fs data off) := by
+    unpackFields be false fs data 0 off = .ok (readAtPacked be fs data off) := by
   induction fs generalizing off with
   | nil => simp [unpackFields, readAtPacked]
   | cons f fs ih =>
     have hle := le_packedEnd fs (off + f.nbytes)
     simp only [packedEnd] at hin
     unfold unpackFields
-    simp only [Bool.false_eq_true, if_false]
-    rw [rdField_ok be f data _ (by omega), ih _ hin]
+    simp only [Bool.false_eq_true, if_false, Nat.zero_add]
+    rw [rdField_ok be f data _ (by omega)]
+    simp only []
+    rw [ih _ hin]
     simp [readAtPacked]
 
 /-- reading through a layout table (name, offset, nbytes) -/
@@ -916,24 +915,22 @@ theorem ehdr_facts (x64 : Bool) :
 /-! ### table entries: the struct walk at an aligned, in-bounds base reads the specification's table -/
 
 theorem structUnpack_phdr (be x64 : Bool) (data : Bytes) (base : Nat)
-    (hal : elfA x64 ∣ base) (hin : base + phdrSize x64 ≤ data.length) :
+    (hin : base + phdrSize x64 ≤ data.length) :
     structUnpack be (phdrFields x64) data base = .ok (refStruct be [] (specPhdr x64) data base) := by
-  obtain ⟨hs, hd, he⟩ := phdr_facts x64
+  obtain ⟨hs, _, he⟩ := phdr_facts x64
   unfold structUnpack
   have := unpackFields_aligned be (phdrFields x64) data base 0
-    (fun f hf => Nat.dvd_trans (hd f hf) hal) (by rw [he]; exact hin)
-  rw [Nat.add_zero] at this
+    (by rw [he]; exact hin)
   rw [this, readAt_eq_layout be _ data base 0 hs, layout_phdr, refStruct_nil_eq]
   rfl
 
 theorem structUnpack_shdr (be x64 : Bool) (data : Bytes) (base : Nat)
-    (hal : elfA x64 ∣ base) (hin : base + shdrSize x64 ≤ data.length) :
+    (hin : base + shdrSize x64 ≤ data.length) :
     structUnpack be (shdrFields x64) data base = .ok (refStruct be [] (specShdr x64) data base) := by
-  obtain ⟨hs, hd, he⟩ := shdr_facts x64
+  obtain ⟨hs, _, he⟩ := shdr_facts x64
   unfold structUnpack
   have := unpackFields_aligned be (shdrFields x64) data base 0
-    (fun f hf => Nat.dvd_trans (hd f hf) hal) (by rw [he]; exact hin)
-  rw [Nat.add_zero] at this
+    (by rw [he]; exact hin)
   rw [this, readAt_eq_layout be _ data base 0 hs, layout_shdr, refStruct_nil_eq]
   rfl
 
@@ -941,39 +938,36 @@ theorem dvd_entry (A off stride i : Nat) (h1 : A ∣ off) (h2 : A ∣ stride) : 
   Nat.dvd_add h1 (Nat.dvd_trans h2 (Nat.dvd_mul_left stride i))
 
 theorem phdrTable_ok (be x64 : Bool) (data : Bytes) (n off stride : Nat)
-    (h1 : elfA x64 ∣ off) (h2 : elfA x64 ∣ stride)
     (hin : ∀ i, i < n → off + i * stride + phdrSize x64 ≤ data.length) :
     tableM (fun o => structUnpack be (phdrFields x64) data o) n off stride
       = .ok (refTable be (specPhdr x64) data n off stride) := by
   rw [tableM_ok _ (fun o => refStruct be [] (specPhdr x64) data o) n off stride]
   · rfl
   · intro i hi
-    exact structUnpack_phdr be x64 data _ (dvd_entry _ _ _ _ h1 h2) (hin i hi)
+    exact structUnpack_phdr be x64 data _ (hin i hi)
 
 theorem shdrTable_ok (be x64 : Bool) (data : Bytes) (n off stride : Nat)
-    (h1 : elfA x64 ∣ off) (h2 : elfA x64 ∣ stride)
     (hin : ∀ i, i < n → off + i * stride + shdrSize x64 ≤ data.length) :
     tablePrefix (fun o => structUnpack be (shdrFields x64) data o) n off stride
       = refTable be (specShdr x64) data n off stride := by
   rw [tablePrefix_ok _ (fun o => refStruct be [] (specShdr x64) data o) n off stride]
   · rfl
   · intro i hi
-    exact structUnpack_shdr be x64 data _ (dvd_entry _ _ _ _ h1 h2) (hin i hi)
+    exact structUnpack_shdr be x64 data _ (hin i hi)
 
 /-! ### header -/
 
 theorem ident_ok (data : Bytes) (h : 16 ≤ data.length) :
     structUnpack false identFields data 0 = .ok (refStruct false ["ELFMAG", "unused"] specIdent data 0) := by
   unfold structUnpack
-  have := unpackFields_aligned false identFields data 0 0 (by decide) (by
+  have := unpackFields_aligned false identFields data 0 0 (by
     have : layoutEnd identFields 0 = 16 := by decide
     rw [this]; omega)
-  rw [Nat.add_zero] at this
   rw [this]
   simp [readAt, identFields, refStruct, specIdent, alignUp, fieldVal, RawField.nbytes, refNat, toStructureError]
 
 theorem ehdr_ok (be x64 : Bool) (data : Bytes) (h : ehdrSize x64 ≤ data.length) :
-    unpackFields be false (ehdrFields x64) data 16 = .ok (refStruct be [] (specEhdr x64) data 0) := by
+    unpackFields be false (ehdrFields x64) data 0 16 = .ok (refStruct be [] (specEhdr x64) data 0) := by
   obtain ⟨hs, he⟩ := ehdr_facts x64
   rw [unpackFields_packed be _ data 16 (by rw [he]; exact h), readAtPacked_eq_layout be _ data 16 hs,
     layout_ehdr, refStruct_nil_eq]
@@ -996,20 +990,15 @@ theorem nameSections_ok (tab : Bytes) (sh : List Rec)
 /-! ### well-formed images and the main refinement -/
 
 /-- A structurally valid ELF image, stated on what the *reference reader* sees: magic, the header
-    and both tables inside the file and naturally aligned for the class (gABI: "all data structures
-    follow the natural size and alignment guidelines for the relevant class"), every segment type one that amoco's constant table knows, `e_shstrndx` a string table below 2^63 whose
-    names are UTF-8. -/
+    and both tables inside the file, every segment type one that amoco's constant table knows,
+    `e_shstrndx` a string table below 2^63 whose names are UTF-8. -/
 structure ElfWF (env : ElfEnv) (data : Bytes) : Prop where
   len : ehdrSize (refElf data).x64 ≤ data.length
   magic0 : fget (refElf data).ident "ELFMAG0" = 0x7f
   magic : fget (refElf data).ident "ELFMAG" = 0x454c46
-  ph_al : elfA (refElf data).x64 ∣ fget (refElf data).ehdr "e_phoff" ∧
-          elfA (refElf data).x64 ∣ fget (refElf data).ehdr "e_phentsize"
   ph_in : ∀ i, i < fget (refElf data).ehdr "e_phnum" →
           fget (refElf data).ehdr "e_phoff" + i * fget (refElf data).ehdr "e_phentsize" + phdrSize (refElf data).x64 ≤ data.length
   ph_known : ∀ p ∈ (refElf data).phdr, keepPhdr env p = true
-  sh_al : elfA (refElf data).x64 ∣ fget (refElf data).ehdr "e_shoff" ∧
-          elfA (refElf data).x64 ∣ fget (refElf data).ehdr "e_shentsize"
   sh_in : ∀ i, i < fget (refElf data).ehdr "e_shnum" →
           fget (refElf data).ehdr "e_shoff" + i * fget (refElf data).ehdr "e_shentsize" + shdrSize (refElf data).x64 ≤ data.length
   strndx_pos : fget (refElf data).ehdr "e_shstrndx" ≠ 0
@@ -1059,14 +1048,14 @@ theorem elfTables_eq_ref (env : ElfEnv) (data : Bytes) (h : ElfWF env data) :
     rw [hRph]
     by_cases hz : (fget R.ehdr "e_phoff" != 0) = true
     · simp only [hz, if_true]
-      exact phdrTable_ok R.be R.x64 data _ _ _ h.ph_al.1 h.ph_al.2 h.ph_in
+      exact phdrTable_ok R.be R.x64 data _ _ _ h.ph_in
     · simp only [hz]; rfl
   have hS : elfShdrsAll R.be R.x64 R.ehdr data = R.shdr := by
     unfold elfShdrsAll
     rw [hRsh]
     by_cases hz : (fget R.ehdr "e_shoff" != 0) = true
     · simp only [hz, if_true]
-      exact shdrTable_ok R.be R.x64 data _ _ _ h.sh_al.1 h.sh_al.2 h.sh_in
+      exact shdrTable_ok R.be R.x64 data _ _ _ h.sh_in
     · simp only [hz]; rfl
   have hpf : R.phdr.filter (keepPhdr env) = R.phdr := List.filter_eq_self.mpr h.ph_known
   have hRnames : R.names = R.shdr.map (fun s => cstrAt
@@ -1234,13 +1223,12 @@ theorem sym_facts (x64 : Bool) :
     layoutEnd (symFields x64) 0 = symSize x64 := by cases x64 <;> decide
 
 theorem structUnpack_sym (be x64 : Bool) (data : Bytes) (base : Nat)
-    (hal : elfA x64 ∣ base) (hin : base + symSize x64 ≤ data.length) :
+    (hin : base + symSize x64 ≤ data.length) :
     structUnpack be (symFields x64) data base = .ok (refStruct be [] (specSym x64) data base) := by
-  obtain ⟨hs, hd, he⟩ := sym_facts x64
+  obtain ⟨hs, _, he⟩ := sym_facts x64
   unfold structUnpack
   have := unpackFields_aligned be (symFields x64) data base 0
-    (fun f hf => Nat.dvd_trans (hd f hf) hal) (by rw [he]; exact hin)
-  rw [Nat.add_zero] at this
+    (by rw [he]; exact hin)
   rw [this, readAt_eq_layout be _ data base 0 hs, layout_sym, refStruct_nil_eq]
   rfl
 
@@ -1249,7 +1237,7 @@ theorem structUnpack_sym (be x64 : Bool) (data : Bytes) (base : Nat)
 theorem readEntries_sym (be x64 : Bool) (S : Rec) (bytes : Bytes)
     (hent : fget S "sh_entsize" ≠ 0) (hmod : fget S "sh_size" % fget S "sh_entsize" = 0)
     (hbig : fget S "sh_size" / fget S "sh_entsize" ≤ bigTable)
-    (hal : elfA x64 ∣ fget S "sh_entsize") (hne : bytes ≠ [])
+    (hne : bytes ≠ [])
     (hin : ∀ i, i < fget S "sh_size" / fget S "sh_entsize" → i * fget S "sh_entsize" + symSize x64 ≤ bytes.length) :
     readEntries be (symFields x64) S bytes =
       .ok ((refTable be (specSym x64) bytes (fget S "sh_size" / fget S "sh_entsize") 0 (fget S "sh_entsize")).map some) := by
@@ -1262,8 +1250,7 @@ theorem readEntries_sym (be x64 : Bool) (S : Rec) (bytes : Bytes)
   rw [tableM_ok _ (fun o => some (refStruct be [] (specSym x64) bytes o))]
   · simp [refTable, List.map_map, Function.comp]
   · intro i hi
-    have := structUnpack_sym be x64 bytes (0 + i * fget S "sh_entsize")
-      (dvd_entry _ _ _ _ (Nat.dvd_zero _) hal) (by have := hin i hi; omega)
+    have := structUnpack_sym be x64 bytes (0 + i * fget S "sh_entsize") (by have := hin i hi; omega)
     rw [this]; rfl
 
 
@@ -1655,17 +1642,17 @@ theorem accHex_accSrec (d : Bytes) (h1 : accHex d = true) (h2 : accSrec d = true
 
 def BytesOK (d : Bytes) : Prop := ∀ b ∈ d, b < 256
 
-theorem unpackFields_head (be al : Bool) (f : RawField) (fs : List RawField) (data : Bytes) (off : Nat) (r : Rec)
-    (h : unpackFields be al (f :: fs) data off = .ok r) :
-    ∃ v rest, r = (f.name, v) :: rest ∧ rdField be f data (if al then alignUp off f.size else off) = .ok v := by
+theorem unpackFields_head (be al : Bool) (f : RawField) (fs : List RawField) (data : Bytes) (base rel : Nat) (r : Rec)
+    (h : unpackFields be al (f :: fs) data base rel = .ok r) :
+    ∃ v rest, r = (f.name, v) :: rest ∧ rdField be f data (base + (if al then alignUp rel f.size else rel)) = .ok v := by
   unfold unpackFields at h
   simp only at h
-  cases hr : rdField be f data (if al = true then alignUp off f.size else off) with
+  cases hr : rdField be f data (base + (if al = true then alignUp rel f.size else rel)) with
   | error e => rw [hr] at h; cases h
   | ok v =>
     rw [hr] at h
     simp only at h
-    cases hu : unpackFields be al fs data ((if al = true then alignUp off f.size else off) + f.nbytes) with
+    cases hu : unpackFields be al fs data base ((if al = true then alignUp rel f.size else rel) + f.nbytes) with
     | error e => rw [hu] at h; cases h
     | ok rest =>
       rw [hu] at h
@@ -1692,14 +1679,14 @@ theorem elfIdent_head (data : Bytes) (ident : Rec) (h : elfIdent data = .ok iden
     · cases h
     · rename_i hm
       unfold structUnpack at hu
-      cases hv : unpackFields false true identFields data 0 with
+      cases hv : unpackFields false true identFields data 0 0 with
       | error e => rw [hv] at hu; simp [toStructureError] at hu
       | ok r =>
         rw [hv] at hu
         simp only [toStructureError, Except.ok.injEq] at hu
         subst hu
-        obtain ⟨v, rest, hr, hrd⟩ := unpackFields_head false true _ _ data 0 r hv
-        have : (if true = true then alignUp 0 (⟨"ELFMAG0", 1, 0⟩ : RawField).size else 0) = 0 := by decide
+        obtain ⟨v, rest, hr, hrd⟩ := unpackFields_head false true _ _ data 0 0 r hv
+        have : 0 + (if true = true then alignUp 0 (⟨"ELFMAG0", 1, 0⟩ : RawField).size else 0) = 0 := by decide
         rw [this] at hrd
         have hh := rdField_byte0 false _ data v hrd
         have hv7 : fget r "ELFMAG0" = v := by rw [hr]; simp [fget, List.lookup]
